@@ -92,9 +92,10 @@ theorem C20_overall_lines (fmt : ℕ → α → String) (ndim : ℕ) (frames : L
 
 /-! ### the guard -/
 
-/-- what the guard guarantees: a frame is written only if the first indices that occur in freud's list are exactly
+/-- what the guard guarantees (PARTIAL with respect to `C20_guard_FullStatement` below, which is false for this code):
+a frame is written only if the first indices that occur in freud's list are exactly
 `0 .. K-1` for the number `K` of rows written, and the only error the row loop can produce is the guard's. -/
-theorem C20_guard (raw : Raw α) :
+theorem C20_guard_partial (raw : Raw α) :
     (∀ rows, Impl.frameRows raw = .ok rows → ∀ a, (∃ j, (a, j) ∈ raw.nlist) ↔ a < rows.length) ∧
     (∀ e, Impl.frameRows raw = .error e → e = "neighbor list not sorted") :=
   ⟨fun rows h a => frameRows_ok_cover raw rows h a,
@@ -109,7 +110,7 @@ theorem C20_guard_raises (fmt : ℕ → α → String) (ndim : ℕ) (frames : Li
   have h1 : Impl.frameRows raw = .error "neighbor list not sorted" := by
     cases hr : Impl.frameRows raw with
     | ok rows => exact absurd ⟨rows.length, frameRows_ok_cover raw rows hr⟩ hbad
-    | error e => rw [(C20_guard raw).2 e hr]
+    | error e => rw [(C20_guard_partial raw).2 e hr]
   refine ⟨h1, ?_⟩
   unfold Impl.calNeighbors
   rw [framesLines_error fmt ndim frames raw _ hm h1]
@@ -121,7 +122,7 @@ def C20_guard_FullStatement : Prop :=
 
 /-- … witnessed by the list `(0,1) (1,0) (1,2) (0,2)`: not sorted, passes.  freud's contract (sorted) is therefore a
 genuine hypothesis of `C20_rows`; it is monitored on freud's raw output at run time. -/
-theorem C20_guard_partial : ¬ C20_guard_FullStatement := by
+theorem C20_guard_FullStatement_refuted : ¬ C20_guard_FullStatement := by
   intro h
   obtain ⟨e, he⟩ := h { nlist := [(0, 1), (1, 0), (1, 2), (0, 2)], weights := [1, 1, 1, 1], volumes := [1, 1] }
     (by decide)
@@ -463,13 +464,15 @@ theorem C20_source_constants :
     (∀ x y : ℚ, Gen.Voro.shiftExpr x y = x + y / 2) ∧ (∀ a b c : ℚ, Gen.Voro.fd a b c = (a - b) / 2 / c) ∧
     Gen.Voro.vmSaveRaw = ["outputfile", Gen.Voro.vmRetRaw] ∧
     Gen.Voro.vmSaveTrans = ["outputfile", Gen.Voro.vmRetTrans] ∧
+    Impl.saveOutcome Gen.Voro.vmSaveRaw Gen.Voro.vmRetRaw = .ok true ∧
+    Impl.saveOutcome Gen.Voro.vmSaveTrans Gen.Voro.vmRetTrans = .ok true ∧
     Gen.Voro.hdrNeighbor = header ∧ isNeighborList Gen.Voro.hdrNeighbor = true ∧
     isNeighborList Gen.Voro.hdrEdge = false ∧ isNeighborList Gen.Voro.hdrFace = false ∧
     Gen.Voro.hdrOverall = ["id", "cn", "area_or_volume"] ∧
     Gen.Voro.suffixes = [".overall.dat", ".neighbor.dat", ".edgelength.dat", ".facearea.dat"] := by
   refine ⟨fun n => ⟨rfl, rfl, rfl⟩, fun nd i j => ⟨rfl, rfl, rfl⟩, rfl, rfl, rfl, rfl, fun c => rfl,
     fun a f i => rfl, by decide, rfl, rfl, fun x y => rfl, fun a b c => rfl, by decide, by decide, by decide,
-    by decide, by decide, by decide, by decide, by decide⟩
+    by decide, by decide, by decide, by decide, by decide, by decide, by decide⟩
 
 /-- every statement of the three routines, pinned as text: an edit anywhere in the anchored code reaches this
 obligation (the statements whose meaning is regenerated above are pinned as well) -/
